@@ -21,7 +21,7 @@ TECHNIQUE = ("BMC of a miter (DUT memory vs amaranth.lib.memory.Memory in one ne
 BOUNDS = {
     "quick": "4 classes; (depth,width) in {(4,2),(4,4),(8,2)} with (r,w) in {(1,2),(2,2)} (MultiReadMemory: w=1), transparent in {all,none}, "
              "init in {[], non-zero}; plus depth 16 x width 2 (address wider than data), depth 3, mixed transparency, partial init and "
-             "granularity (MultiReadMemory; both ILVT memories with 1 and 2 write ports); BMC 6 cycles from reset (5 for depth 16), all addresses/data/enables",
+             "granularity (MultiReadMemory; both ILVT memories with 1 and 2 write ports; one granule per row on all four classes); BMC 6 cycles from reset (5 for depth 16), all addresses/data/enables",
     "thorough": "as quick plus (r,w) up to (3,3), depths 3,5,6, depth 16 x width 2 for all classes and transparencies, mixed transparency, "
                 "partial init, granularity 1/2 (MultiReadMemory, ILVT memories with one write port); BMC 9 cycles (7 for depth 16 and for 3 ports of a kind)",
 }
@@ -138,6 +138,11 @@ def configs(tier, seed):
         out.append(_mk(cls, 4, 2, 1, 1, "all", "full", K, gran=1))                          # granularity, one write port
         out.append(_mk(cls, 4, 2, 1, 2, "all", "zero", K, gran=1))                          # granularity, two write ports
         out.append(_mk(cls, 4, 2, 1, 2, "none", "zero", K, gran=1))
+    # one granule per row (granularity = row width): the one-bit write mask must still be honoured
+    out.append(_mk("MultiReadMemory", 4, 2, 2, 1, "all", "full", K, gran=2))
+    for cls in multi:
+        out.append(_mk(cls, 4, 2, 1, 1, "all", "full", K, gran=2))
+        out.append(_mk(cls, 4, 2, 1, 2, "none", "zero", K, gran=2))
     for cls in multi:
         # a write-port count that is not a power of two (bank-index width corner)
         out.append(_mk(cls, 4, 2, 1, 3, "none", "full", 5 if tier == "quick" else 7))
@@ -224,7 +229,8 @@ def run(cfg, ctx):
     # in an earlier cycle") is tracked beside the design; the obligations are decided under NOT trig (anything found there is a
     # violation of its own), and one extra query without the restriction reports the known finding - deterministically, whatever
     # model the solver picks.
-    known_shape = "ILVT" in cfg["cls"] and cfg.get("gran") is not None and cfg["nw"] >= 2
+    # the known class needs a PARTIAL write, i.e. at least two granules per row; with one granule per row the check is unrestricted
+    known_shape = "ILVT" in cfg["cls"] and cfg.get("gran") is not None and cfg["nw"] >= 2 and cfg["width"] // cfg["gran"] > 1
     nw, depth = cfg["nw"], cfg["depth"]
     lb = max((nw - 1).bit_length(), 1)
     live = [z3.BitVecVal(0, lb) for _ in range(depth)]     # data and live-value table start in bank 0
